@@ -189,6 +189,8 @@ func handle(req *sb.Req) (resp sb.Resp) {
 			}()
 			res, e := th.InterpretTopLevel(fn)
 			finish(&r, th, res, e, out, errw)
+			// full capacity of the value stack after the run (it only ever grows): C10 measures reallocation with it
+			r.Extra = map[string]any{"stack_cap": cap(th.ValueStack()), "init_stack": vm.INIT_VALUE_STACK_SIZE}
 		})
 		resp.Runs = []sb.Run{r}
 	case "repl":
